@@ -162,3 +162,189 @@ fn directed(out: &mut Out, src: &str) {
         Err(_) => out.count("directed-rejected"),
     }
 }
+
+// ---------------------------------------------------------------------------------------------
+// C03 / C16
+
+fn hexs(s: &str) -> String {
+    if s.is_empty() {
+        return "-".into();
+    }
+    s.bytes().map(|b| format!("{:02x}", b)).collect()
+}
+
+pub fn parse_str(text: &str) -> String {
+    use emulator_2a_lib::parser::ParserError;
+    match catch_unwind(AssertUnwindSafe(|| AsmParser::parse(text))) {
+        Ok(Ok(a)) => format!("ok {}", astser::asm(&a)),
+        Ok(Err(ParserError::InvalidSyntax(_))) => "syntax".into(),
+        Ok(Err(ParserError::UndefinedLabels(v))) => format!("undefined {}", v.join(",")),
+        Ok(Err(ParserError::TooManyLabels)) => "toomany".into(),
+        Err(_) => "panic".into(),
+    }
+}
+
+/// One random single-token mutation of a valid source text (usually makes it invalid).
+fn mutate(rng: &mut Rng, text: &str) -> String {
+    let chars: Vec<char> = text.chars().collect();
+    if chars.len() < 10 {
+        return text.to_string();
+    }
+    let i = 8 + rng.below((chars.len() - 8) as u64) as usize;
+    let mut v = chars.clone();
+    match rng.below(8) {
+        0 => {
+            v.remove(i);
+        }
+        1 => {
+            let c = v[i];
+            v.insert(i, c);
+        }
+        2 => v[i] = *rng.pick(&[',', '(', ')', '+', ':', ';', ' ', '0', '9', 'R', 'x', '#', '\t', '.', '*']),
+        3 => {
+            // boundary numerals
+            let ins: Vec<char> = rng.pick(&["256", "0x100", "0b100000000", "65536", "0x10000", "00255", "0x0FF", "0b011111111", "0xG"]).chars().collect();
+            for (k, c) in ins.iter().enumerate() {
+                v.insert(i + k, *c);
+            }
+        }
+        4 => {
+            // drop the header
+            return text.splitn(2, '\n').nth(1).unwrap_or("").to_string();
+        }
+        5 => {
+            // a reference to an undefined label
+            return format!("{}\nJR undefined_label_{}", text, rng.below(100));
+        }
+        6 => {
+            // a label that starts like a register
+            return format!("{}\n{}x:", text, rng.pick(&["R", "r", "PC", "pc", "SP", "sp"]));
+        }
+        _ => {
+            v.truncate(i);
+        }
+    }
+    v.into_iter().collect()
+}
+
+fn raw_string(rng: &mut Rng) -> String {
+    let pool: Vec<char> = "#! mrasm\n\r\t ;:,()+.*0123456789abxRrPCLDMOVJ_é€λ\u{0}\u{7f}\u{2028}".chars().collect();
+    let n = rng.below(60);
+    let mut s: String = (0..n).map(|_| *rng.pick(&pool)).collect();
+    if rng.chance(1, 2) {
+        s = format!("#! mrasm\n{}", s);
+    }
+    s
+}
+
+pub fn run_c03(out: &mut Out, seed: u64, thorough: bool) {
+    let mut rng = Rng::new(seed);
+    let n = if thorough { 12000 } else { 1500 };
+    for i in 0..n {
+        let o = GenOpts { max_lines: if i % 9 == 0 { 50 } else { 10 }, allow_backward_org: true, fit_ram: false, plain: i % 4 == 0 };
+        let (ast, text) = asmgen::program(&mut rng, &o);
+        let r = parse_str(&text);
+        if i < 2 {
+            out.sample(format!("{} => {}", text.replace('\n', "\\n").replace('\r', "\\r").replace('\t', "\\t"), &r[..r.len().min(120)]));
+        }
+        let hx = hexs(&text);
+        // model of the parser (PEG interpreter over the translated grammar + AST builders)
+        out.emit(&format!("parse {}", hx), &r);
+        // expected AST known by construction
+        out.emit(&format!("spec.parse {} {}", hx, astser::asm(&ast)), &r);
+        out.distinct_case(&text);
+        out.count("valid");
+        // single-token mutations: model must agree; most must be rejected
+        for _ in 0..2 {
+            let m = mutate(&mut rng, &text);
+            let rm = parse_str(&m);
+            out.emit(&format!("parse {}", hexs(&m)), &rm);
+            out.emit(&format!("spec.noparsepanic {}", hexs(&m)), if rm == "panic" { "panic" } else { "ok" });
+            out.count(if rm.starts_with("ok") { "mutant-accepted" } else { "mutant-rejected" });
+        }
+    }
+    // directed rejects: boundary numerals, missing header, 41 labels, undefined label, register-like labels
+    let rejects: Vec<String> = vec![
+        "".into(), "NOP".into(), "#!mrasm\nNOP".into(), "#! mrasm  \nNOP".into(), " #! mrasm\nNOP".into(),
+        "#! mrasm\nLD R0, 256".into(), "#! mrasm\nLD R0, 0x100".into(), "#! mrasm\nLD R0, 0b100000000".into(),
+        "#! mrasm\n.DW 65536".into(), "#! mrasm\n.DW 0x10000".into(), "#! mrasm\n.DW 0b10000000000000000".into(),
+        "#! mrasm\nJR nowhere".into(), "#! mrasm\nR0x:".into(), "#! mrasm\npcx:".into(), "#! mrasm\nSPx:".into(),
+        "#! mrasm\nLD R4, 1".into(), "#! mrasm\nLD pc, 1".into(), "#! mrasm\nMOV 5, R0".into(), "#! mrasm\nADD R0 , R1".into(),
+        "#! mrasm\nADD R0,R1 R2".into(), "#! mrasm\n.EQU x 0x10".into(), "#! mrasm\n*STACKSIZE 17".into(),
+        "#! mrasm\n*STACKSIZE 016".into(), "#! mrasm\nNOP NOP".into(), "#! mrasm\nlabel :".into(), "#! mrasm\n.DB".into(),
+        "#! mrasm\n.DB 1,".into(), "#! mrasm\nLD R0,(R1+".into(), "#! mrasm\nLD R0,((R1))".into(),
+        format!("#! mrasm\n{}", (0..41).map(|i| format!("l{}:", i)).collect::<Vec<_>>().join("\n")),
+    ];
+    for r in &rejects {
+        let rm = parse_str(r);
+        out.emit(&format!("parse {}", hexs(r)), &rm);
+        out.emit(&format!("spec.reject {}", hexs(r)), if rm.starts_with("ok") { "accepted" } else { "reject" });
+        out.count("directed-reject");
+    }
+    // directed accepts at the boundaries
+    let accepts: Vec<(String, String)> = vec![
+        ("#! mrasm\nLD R0, 255".into(), "- | I - LDC R0 #255".into()),
+        ("#! mrasm\nLD R0, 0xff".into(), "- | I - LDC R0 #255".into()),
+        ("#! mrasm\nLD R0, 0b11111111".into(), "- | I - LDC R0 #255".into()),
+        ("#! mrasm\nLD R0, 0b0000000011111111".into(), "- | I - LDC R0 #255".into()),
+        ("#! mrasm\nLD R0, 000000255".into(), "- | I - LDC R0 #255".into()),
+        ("#! mrasm\n.DW 65535, 0xFFFF, 0b1111111111111111, 0".into(), "- | I - DW 65535,65535,65535,0".into()),
+        ("#! mrasm\nLD PC, 0".into(), "- | I - LDC R3 #0".into()),
+        (format!("#! mrasm\n{}", (0..40).map(|i| format!("l{}:", i)).collect::<Vec<_>>().join("\n")),
+         format!("- | {}", (0..40).map(|i| format!("L - l{}", i)).collect::<Vec<_>>().join(" | "))),
+    ];
+    for (t, e) in &accepts {
+        let rm = parse_str(t);
+        out.emit(&format!("parse {}", hexs(t)), &rm);
+        out.emit(&format!("spec.parse {} {}", hexs(t), e), &rm);
+        out.count("directed-accept");
+    }
+    // raw strings: never a panic, and the model agrees on accept/reject
+    let m = if thorough { 40000 } else { 4000 };
+    for _ in 0..m {
+        let t = raw_string(&mut rng);
+        let rm = parse_str(&t);
+        out.emit(&format!("parse {}", hexs(&t)), &rm);
+        out.emit(&format!("spec.noparsepanic {}", hexs(&t)), if rm == "panic" { "panic" } else { "ok" });
+        out.count(if rm.starts_with("ok") { "raw-accepted" } else { "raw-rejected" });
+    }
+}
+
+pub fn run_c16(out: &mut Out, seed: u64, thorough: bool) {
+    let mut rng = Rng::new(seed);
+    let n = if thorough { 20000 } else { 2500 };
+    for i in 0..n {
+        let o = GenOpts { max_lines: if i % 9 == 0 { 60 } else { 12 }, allow_backward_org: true, fit_ram: false, plain: i % 4 == 0 };
+        let (_ast, text) = asmgen::program(&mut rng, &o);
+        let parsed = match AsmParser::parse(&text) {
+            Ok(p) => p,
+            Err(_) => {
+                out.count("generator-text-rejected");
+                continue;
+            }
+        };
+        let rendered = format!("{}", parsed);
+        // model of the formatter
+        out.emit(&format!("fmt {}", astser::asm(&parsed)), &hexs(&rendered));
+        // the property itself on the real code
+        let rt = match catch_unwind(AssertUnwindSafe(|| AsmParser::parse(&rendered))) {
+            Ok(Ok(again)) => {
+                if again == parsed {
+                    "same".to_string()
+                } else {
+                    "differs".to_string()
+                }
+            }
+            Ok(Err(_)) => "rejected".to_string(),
+            Err(_) => "panic".to_string(),
+        };
+        if i < 2 {
+            out.sample(format!("{} => {}", rendered.replace('\n', "\\n"), rt));
+        }
+        out.emit(&format!("spec.roundtrip {}", hexs(&text)), &rt);
+        // and the model parser on the rendered text
+        out.emit(&format!("parse {}", hexs(&rendered)), &parse_str(&rendered));
+        out.distinct_case(&text);
+        out.count(&rt);
+    }
+}
